@@ -42,7 +42,7 @@ pub fn judge(case: &Case, obs: &Obs) -> (Vec<Violation>, BTreeMap<String, u64>, 
         return (v, reach, false);
     }
     let stage = obs.extra.get("stage").cloned().unwrap_or(Value::Null);
-    let is_plugin_err = |bi: usize, qi: usize| stage.get(bi).and_then(|s| s.get(qi)).map_or(false, |s| s.is_string());
+    let n_ok = |bi: usize, qi: usize| stage.get(bi).and_then(|s| s.get(qi)).and_then(|s| s.as_u64()).unwrap_or(0) as usize;
     // expected search-stage responses (isolated) and what the caller got back
     let mut expected_ref: Vec<Value> = vec![];
     let mut returned_search: Vec<Value> = vec![];
@@ -51,10 +51,9 @@ pub fn judge(case: &Case, obs: &Obs) -> (Vec<Violation>, BTreeMap<String, u64>, 
         let mut n_search = 0;
         for (qi, _q) in batch.iter().enumerate() {
             let rs = obs.reference[bi][qi].clone().unwrap();
-            if !is_plugin_err(bi, qi) {
-                n_search += rs.len();
-                expected_ref.extend(rs);
-            }
+            let k = n_ok(bi, qi).min(rs.len());
+            n_search += k;
+            expected_ref.extend(rs.into_iter().take(k));
         }
         match obs.runs.get(bi) {
             Some(Some(Ok(r))) => {
@@ -316,7 +315,7 @@ impl Check for C19 {
             "hard-fault family only demands: no panic, no hang, no duplicated record, at most one damaged line per injected hard fault".into(),
         ]
     }
-    fn judge_abnormal(&self, what: &str) -> Option<Violation> {
+    fn judge_abnormal(&self, _case: &Case, what: &str) -> Option<Violation> {
         if what.contains("deadlock") {
             Some(Violation { class: "deadlock".into(), detail: what.into() })
         } else if what.contains("budget") {
